@@ -112,32 +112,33 @@ type Node struct {
 
 // World is one simulated run.
 type World struct {
-	Sc              *Scenario
-	S               *rt.Sched
-	KV              *simkv.World
-	Nodes           []*Node
-	Recs            []*Rec
-	Watchers        []*Watcher
-	ComSamples      []uint64 // committed revision of node 0 after every step (index = step)
-	SampleCommitted bool
-	done            int
-	started         bool
-	proDone         bool
-	Stuck           bool
-	StuckWhy        string
-	lastProgress    time.Duration
-	tmpDir          string
-	closers         []func()
-	clients         []*clientState
-	OnStep          func(step uint64)
-	progressMark    int
-	doneRecs        int
-	probe           *clientState
-	Panics          []string
-	FineClock       bool // never let the clock hop far while tasks may become eligible (electors)
-	inflight        map[string]*Rec
-	probeIdx        int
-	probeW          int
+	Sc                 *Scenario
+	S                  *rt.Sched
+	KV                 *simkv.World
+	Nodes              []*Node
+	Recs               []*Rec
+	Watchers           []*Watcher
+	ComSamples         []uint64 // committed revision of node 0 after every step (index = step)
+	SampleCommitted    bool
+	done               int
+	started            bool
+	proDone            bool
+	Stuck              bool
+	StuckWhy           string
+	lastProgress       time.Duration
+	tmpDir             string
+	closers            []func()
+	clients            []*clientState
+	OnStep             func(step uint64)
+	progressMark       int
+	doneRecs           int
+	probe              *clientState
+	Panics             []string
+	FineClock          bool // never let the clock hop far while tasks may become eligible (electors)
+	YieldOnSetRevision bool // also yield when an unregistered goroutine (the elector\'s OnStartedLeading) sets the revision
+	inflight           map[string]*Rec
+	probeIdx           int
+	probeW             int
 }
 
 type clientState struct {
@@ -304,7 +305,7 @@ func (w *World) addNodeWithIdentity(identity string) *Node {
 	}
 	w.S.SpawnNode = id
 	b := backend.NewBackend(kv, cfg, m)
-	n := &Node{ID: id, B: b, H: h, M: m, Cfg: cfg}
+	n := &Node{ID: id, B: &yieldingBackend{Backend: b, w: w, node: id}, H: h, M: m, Cfg: cfg}
 	w.Nodes = append(w.Nodes, n)
 	return n
 }
@@ -528,4 +529,21 @@ func (w *World) Teardown() {
 	for _, c := range w.closers {
 		c()
 	}
+}
+
+// yieldingBackend makes SetCurrentRevision a cooperative point: whoever initialises or adopts a
+// revision (a new leader's OnStartedLeading, a follower's revision sync) can be interleaved with
+// requests right before the revision is set.
+type yieldingBackend struct {
+	backend.Backend
+	w    *World
+	node int
+}
+
+func (y *yieldingBackend) SetCurrentRevision(rev uint64) {
+	// never park the scheduler goroutine itself (harness set-up calls)
+	if !y.w.S.IsRoot() && (y.w.S.Current() != nil || y.w.YieldOnSetRevision) {
+		y.w.S.Yield("backend.setrev", y.node)
+	}
+	y.Backend.SetCurrentRevision(rev)
 }
